@@ -4,6 +4,7 @@ import functools
 import math
 import struct
 from decimal import Decimal
+from fractions import Fraction
 
 from claripy.errors import ClaripyOperationError
 from claripy.fp import FSORT_DOUBLE, FSORT_FLOAT, RM, FSort
@@ -209,6 +210,71 @@ def _int_to_float(n: int, rm: RM, sort: FSort) -> float:
     return float(-magnitude if n < 0 else magnitude)
 
 
+def _round_fraction(q: Fraction, negative: bool, rm: RM, sort: FSort) -> float:
+    """
+    The rational `q` >= 0, taken with the sign `negative`, rounded once in the mode `rm` to a value of `sort`
+    (subnormals, overflow and the sign of a zero result included).  Sums, products and quotients of floating-point
+    values are rationals, so this gives their correctly rounded result in every mode; Python's own arithmetic only
+    rounds to nearest.
+    """
+    if q == 0:
+        return -0.0 if negative else 0.0
+    precision = sort.mantissa
+    emax = (1 << (sort.exp - 1)) - 1
+    emin = 1 - emax
+    exponent = q.numerator.bit_length() - q.denominator.bit_length()
+    if q < Fraction(2) ** exponent:
+        exponent -= 1  # 2**exponent <= q < 2**(exponent + 1)
+    last_place = max(exponent, emin) - (precision - 1)
+    scaled = q / Fraction(2) ** last_place
+    kept = scaled.numerator // scaled.denominator
+    rest = scaled - kept
+    half = Fraction(1, 2)
+    if rm == RM.RM_NearestTiesEven:
+        up = rest > half or (rest == half and kept & 1 == 1)
+    elif rm == RM.RM_NearestTiesAwayFromZero:
+        up = rest >= half
+    elif rm == RM.RM_TowardsZero:
+        up = False
+    elif rm == RM.RM_TowardsPositiveInf:
+        up = rest != 0 and not negative
+    elif rm == RM.RM_TowardsNegativeInf:
+        up = rest != 0 and negative
+    else:
+        raise ClaripyOperationError(f"unknown rounding mode {rm}")
+    result = (kept + (1 if up else 0)) * Fraction(2) ** last_place
+    if result >= Fraction(2) ** (emax + 1):
+        # overflow: infinity, or the largest finite value where the mode rounds towards zero on this side
+        away = (
+            rm in (RM.RM_NearestTiesEven, RM.RM_NearestTiesAwayFromZero)
+            or (rm == RM.RM_TowardsPositiveInf and not negative)
+            or (rm == RM.RM_TowardsNegativeInf and negative)
+        )
+        magnitude = float("inf") if away else float(((1 << precision) - 1) * Fraction(2) ** (emax - precision + 1))
+    else:
+        magnitude = float(result)
+    return -magnitude if negative else magnitude
+
+
+def _same_sort(a, b):
+    if not isinstance(a, FPV) or not isinstance(b, FPV):
+        raise ClaripyOperationError("must have two FPVs")
+    if a.sort != b.sort:
+        raise ClaripyOperationError(f"FPVs are differently-sorted ({a.sort} and {b.sort})")
+
+
+def _add(rm: RM, sort: FSort, x: float, y: float) -> float:
+    if not (math.isfinite(x) and math.isfinite(y)):
+        return x + y
+    exact = Fraction(x) + Fraction(y)
+    if exact == 0:
+        # an exact zero: the common sign of two zeros of one sign, else +0 - except towards minus infinity: -0
+        if x == 0 and math.copysign(1.0, x) == math.copysign(1.0, y):
+            return x
+        return -0.0 if rm == RM.RM_TowardsNegativeInf else 0.0
+    return _round_fraction(abs(exact), exact < 0, rm, sort)
+
+
 def fpToFP(a1, a2, a3=None):
     """
     Returns a FP AST and has three signatures:
@@ -243,7 +309,9 @@ def fpToFP(a1, a2, a3=None):
 
         return FPV(unpacked, sort)
     if isinstance(a1, RM) and isinstance(a2, FPV) and isinstance(a3, FSort):
-        return FPV(a2.value, a3)
+        if not math.isfinite(a2.value) or a2.value == 0:
+            return FPV(a2.value, a3)
+        return FPV(_round_fraction(abs(Fraction(a2.value)), a2.value < 0, a1, a3), a3)
     if isinstance(a1, RM) and isinstance(a2, BVV) and isinstance(a3, FSort):
         return FPV(_int_to_float(a2.signed, a1, a3), a3)
     raise ClaripyOperationError("unknown types passed to fpToFP")
@@ -399,32 +467,85 @@ def fpNeg(x):
     return -x
 
 
-def fpSub(_rm, a, b):
+# Python's float arithmetic rounds to nearest, ties to even (going through a double is harmless for singles: 53 >= 2 * 24
+# + 2 bits).  In the other rounding modes the exact rational result is rounded once, in the mode asked for.
+
+
+def fpSub(rm, a, b):
     """
     Returns the subtraction of the floating point `a` by the floating point `b`.
     """
-    return a - b
+    if rm == RM.RM_NearestTiesEven:
+        return a - b
+    _same_sort(a, b)
+    return FPV(_add(rm, a.sort, a.value, -b.value), a.sort)
 
 
-def fpAdd(_rm, a, b):
+def fpAdd(rm, a, b):
     """
     Returns the addition of two floating point numbers, `a` and `b`.
     """
-    return a + b
+    if rm == RM.RM_NearestTiesEven:
+        return a + b
+    _same_sort(a, b)
+    return FPV(_add(rm, a.sort, a.value, b.value), a.sort)
 
 
-def fpMul(_rm, a, b):
+def fpMul(rm, a, b):
     """
     Returns the multiplication of two floating point numbers, `a` and `b`.
     """
-    return a * b
+    if rm == RM.RM_NearestTiesEven:
+        return a * b
+    _same_sort(a, b)
+    x, y = a.value, b.value
+    if not (math.isfinite(x) and math.isfinite(y)) or x == 0 or y == 0:
+        return FPV(x * y, a.sort)
+    return FPV(_round_fraction(abs(Fraction(x) * Fraction(y)), (x < 0) != (y < 0), rm, a.sort), a.sort)
 
 
-def fpDiv(_rm, a, b):
+def fpDiv(rm, a, b):
     """
     Returns the division of the floating point `a` by the floating point `b`.
     """
-    return a / b
+    if rm == RM.RM_NearestTiesEven:
+        return a / b
+    _same_sort(a, b)
+    x, y = a.value, b.value
+    if y == 0:
+        return FPV(_div_by_zero(x, y), a.sort)
+    if not (math.isfinite(x) and math.isfinite(y)) or x == 0:
+        return FPV(x / y, a.sort)
+    return FPV(_round_fraction(abs(Fraction(x) / Fraction(y)), (x < 0) != (y < 0), rm, a.sort), a.sort)
+
+
+def fpSqrt(rm, a):
+    """
+    Returns the square root of the floating point `a`.
+    """
+    x = a.value
+    if rm == RM.RM_NearestTiesEven or not math.isfinite(x) or x <= 0:
+        return a.fpSqrt()
+    # floor(sqrt(x) / 2**last_place) by an integer square root; the rest is compared with a half by squaring
+    q = Fraction(x)
+    exponent = q.numerator.bit_length() - q.denominator.bit_length()
+    if q < Fraction(2) ** exponent:
+        exponent -= 1
+    last_place = exponent // 2 - (a.sort.mantissa - 1)
+    scaled_square = q / Fraction(4) ** last_place
+    kept = math.isqrt(scaled_square.numerator // scaled_square.denominator)
+    exact = kept * kept == scaled_square
+    beyond_half = 4 * scaled_square > (2 * kept + 1) ** 2
+    tie = 4 * scaled_square == (2 * kept + 1) ** 2
+    if rm == RM.RM_NearestTiesAwayFromZero:
+        up = beyond_half or tie
+    elif rm == RM.RM_TowardsPositiveInf:
+        up = not exact
+    elif rm in (RM.RM_TowardsZero, RM.RM_TowardsNegativeInf):
+        up = False
+    else:
+        raise ClaripyOperationError(f"unknown rounding mode {rm}")
+    return FPV(float((kept + (1 if up else 0)) * Fraction(2) ** last_place), a.sort)
 
 
 def fpIsNaN(x):
